@@ -65,6 +65,14 @@ CHECKS = {
    "Random sequential histories over set/clear/check/watch/next through the generated HealthClient, with watchers polled only when an executor would poll them (never polled, or woken since their last Pending) and a sequential reference model; plus concurrent histories on a multi-thread runtime checked for per-service linearizability (Wing-Gong search over a register model, 2 s checker timeout => inconclusive) and watch-stream constraints.",
    "Held on the histories produced; in the concurrent leg staleness is never decided by wall-clock (watchdog => inconclusive), the sequential leg decides it.",
    "runtime monitoring: sequential reference model with executor-faithful watcher scheduling + linearizability checker", "DESIGN.md#c18"),
+ "C19": ("exploration",
+   "Generates descriptor sets (nested packages, messages to depth 3 incl. field-less namespaces, oneofs, enums, services), registers them decoded/encoded in several sets with shared and repeated files, builds the real v1 and v1alpha services and queries every declared fully-qualified name, every file and the service list through the generated reflection clients; the harness's own descriptor walk is the oracle; mutated names must be NOT_FOUND; both versions must agree.",
+   "Held on the descriptor sets produced; fully-qualified names are generated unique (protobuf requires it); enum values are addressed as <enum>.<VALUE>.",
+   "runtime monitoring: own descriptor walk as reference + differential v1/v1alpha", "DESIGN.md#c19"),
+ "C20": ("exploration",
+   "Attaches generated standard error details (every subset of the 10 kinds as a set; lists of 0..12 with repeats) to statuses, sends them through the real header encoding and compares every getter field-wise; parses the embedded google.rpc.Status with the harness's own protobuf parser; feeds garbage/truncated/bit-flipped details to every decoder entry point under catch_unwind.",
+   "Held on the executions produced; the detail types have no PartialEq so comparison is on a field-wise canonical rendering.",
+   "runtime monitoring: field-wise round-trip oracle + independent protobuf parse + totality under catch_unwind", "DESIGN.md#c20"),
 }
 
 NOT_YET = {}
